@@ -43,7 +43,7 @@ NoTxn == [valid |-> FALSE]
 NoDry == [valid |-> FALSE]
 NoFlt == [valid |-> FALSE]
 NoSet == [valid |-> FALSE]
-Props == {"C01", "C02", "C03", "C04", "C05", "C06", "C07", "C08", "C09", "M"}
+Props == {"C01", "C02", "C03", "C04", "C05", "C06", "C07", "C08", "C09", "C10", "M"}
 
 NoOpen == [id |-> "-", armed |-> FALSE, short |-> FALSE]
 OpenProj == [id |-> open.id, armed |-> open.armed]
@@ -67,6 +67,37 @@ Obs(e) == [I |-> ObsIntended(e.post.intended), m |-> ObsFun(e.post.mirror), d |-
 
 NoEffect(e, o) == /\ o.I = intended /\ o.d = device /\ o.m = mirror
                   /\ Len(e.sets) = 0 /\ Len(e.mods) = 0
+
+\* ---- C10: all southbound encodings of one change (rendered from the same tree inside the device's Set) -------
+\* a JSON document cannot show a presence container separately from its children
+JsonView(S) == {q \in S : ~(q[2] = "e:" /\ \E r \in S : r[1] \in AllLeaf /\ UPresenceParent[r[1]] = q[1])}
+\* JSON and XML identify a list entry by its key members: a key leaf that accompanies another leaf of the same entry
+\* is addressing, not part of the change (the proto rendering carries the keys in the path)
+Content(S) == {q \in S : ~(q[1] \in UKeyLeaf /\ q[2] = "key" /\ \E r \in S : r[1] \in AllLeaf /\ r[1] \notin UKeyLeaf /\ UEntryOf[r[1]] = UEntryOf[q[1]])}
+Same(A, B) == Content(JsonView(A)) = Content(JsonView(B))
+\* what an XML document deletes: the deleted elements plus, below an element with operation="replace", everything it does not restate
+XmlDel(x) == SeqRange(x.del) \cup (SeqRange(x.replaceleaves) \ {q[1] : q \in Pairs(x.upd)})
+XmlOpsOK(x) == LET del == IF x.opts[3] THEN "remove" ELSE "delete"
+                   ok == IF x.opts[2] THEN {"nc:" \o del} ELSE {del}
+               IN (SeqRange(x.ops) \ {"replace", "nc:replace"}) \subseteq ok
+EncClauses(c) ==
+  LET pu == Pairs(c.upd)
+      pd == SeqRange(c.del)
+      X == SeqRange(c.enc.xml)
+  IN {<<"C10", "RenderingsSucceed", Len(c.enc.errs) = 0 /\ \A x \in X : x.err = "">>,
+      <<"C10", "JsonSameUpd", Same(Pairs(c.enc.json), pu)>>,
+      <<"C10", "JsonIetfSameUpd", Same(Pairs(c.enc.ietf), pu)>>,
+      <<"C10", "XmlSameUpd", \A x \in X : Same(Pairs(x.upd), pu)>>,
+      <<"C10", "XmlSameDel", \A x \in X : XmlDel(x) = pd>>,
+      <<"C10", "XmlNamespaces", \A x \in X : x.opts[1] => x.nsok>>,
+      <<"C10", "XmlKeysFirst", \A x \in X : x.keysfirst>>,
+      <<"C10", "XmlAllNamed", \A x \in X : x.allnamed /\ Len(x.unknownelems) = 0>>,
+      <<"C10", "XmlDeleteOperation", \A x \in X : XmlOpsOK(x)>>,
+      <<"C10", "EmptyAgree", \A x \in X : x.empty = (pu = {} /\ pd = {})>>,
+      <<"C10", "FullViewsAgree", /\ Same(Pairs(c.enc.protoall), Pairs(c.enc.jsonall))
+                                 /\ Same(Pairs(c.enc.jsonall), Pairs(c.enc.ietfall))
+                                 /\ Same(Pairs(c.enc.xmlall), Pairs(c.enc.jsonall))>>}
+EncOf(e) == UNION {EncClauses(e.sets[i]) : i \in {j \in 1..Len(e.sets) : e.sets[j].hasenc}}
 
 \* ---- TransactionSet ------------------------------------------------------------------
 SetClauses(e, o) ==
@@ -149,8 +180,8 @@ TxSet(e) ==
   LET o == Obs(e)
       R == ReqOf(e)
       applied == e.ret = "ok" /\ ~e.dry /\ open.id = "-"
-  IN /\ bad' = bad \cup Failed(SetClauses(e, o), l)
-     /\ nt' = Bump(SetNT(e))
+  IN /\ bad' = bad \cup Failed(SetClauses(e, o) \cup EncOf(e), l)
+     /\ nt' = Bump(SetNT(e) \cup (IF \E i \in 1..Len(e.sets) : e.sets[i].hasenc /\ Len(e.sets[i].upd) > 0 /\ Len(e.sets[i].del) > 0 THEN {"C10"} ELSE {}))
      /\ intended' = o.I /\ mirror' = (IF e.envsync THEN o.d ELSE o.m) /\ device' = o.d   \* env sync: mirror := device
      /\ open' = IF open.id = "-" THEN NextOpen(o, e.tmo < 5000) ELSE NextOpen(o, open.short)
      /\ ever' = IF applied THEN EverAfter(ever, intended, R, NewStore(intended, R), o.d) \cup LeavesOf(o.I)
